@@ -16,6 +16,8 @@ def setup():
     mc = use_repo()
     import sys
     sys.setswitchinterval(1e-6)     # baton hand-offs: 6 ms -> 2.5 ms / run
+    from vf.runner import pin_self
+    pin_self()
     from minecraft.networking import connection as C
     from minecraft.networking import encryption as E
     pysched.install(C)
